@@ -748,3 +748,49 @@ pub fn rd_fail<X: TryV>(x: &X) -> String {
 pub fn is_fail<X: TryV>(x: &X) -> bool {
     x.is_fail()
 }
+
+// ------------------------------------------------------------------------------------------
+// custom joiner support (C16)
+// ------------------------------------------------------------------------------------------
+
+/// stamp applied by the workload's custom joiners to every value that passes through them, so that
+/// an expansion that does not use the joiner's output yields different values
+pub fn js<X: Val>(ev: u32, x: X) -> X {
+    x.stamp(ev | 0x4000_0000)
+}
+
+/// tuples of values: stamp every element
+pub trait JsTuple {
+    fn jst(self, ev: u32) -> Self;
+}
+/// tuples of `Result`s: transpose (first error in branch order wins), stamping the Ok values
+pub trait TrRes {
+    type Out;
+    fn tr(self, ev: u32) -> Result<Self::Out, ETok>;
+}
+macro_rules! impl_tuples {
+    ($( ($($n:ident $i:tt),+) )+) => {$(
+        impl<$($n: Val),+> JsTuple for ($($n,)+) {
+            fn jst(self, ev: u32) -> Self { ($( js(ev, self.$i), )+) }
+        }
+        impl<$($n: Val),+> TrRes for ($(Result<$n, ETok>,)+) {
+            type Out = ($($n,)+);
+            fn tr(self, ev: u32) -> Result<Self::Out, ETok> {
+                Ok(($( match self.$i { Ok(v) => js(ev, v), Err(e) => return Err(e) }, )+))
+            }
+        }
+    )+};
+}
+impl_tuples! {
+    (A 0, B 1)
+    (A 0, B 1, C 2)
+    (A 0, B 1, C 2, D 3)
+    (A 0, B 1, C 2, D 3, E 4)
+    (A 0, B 1, C 2, D 3, E 4, F 5)
+}
+pub fn jst<T: JsTuple>(ev: u32, t: T) -> T {
+    t.jst(ev)
+}
+pub fn tr<T: TrRes>(ev: u32, t: T) -> Result<T::Out, ETok> {
+    t.tr(ev)
+}
